@@ -59,7 +59,24 @@ def parse_case(text):
     nums = [int(x) for x in h[7:]]
     tc = TreeCase(d, per, H, B, mode, [nums[k * d:(k + 1) * d] for k in range(N)])
     tc.queries = t[1:]
+    if B < 0:
+        tc.B = auto_block_size(tc, -B)
     return tc
+
+
+def auto_block_size(tc, hc):
+    """TbfBlockSizeFinder::Estimate: max(1, #occupied leaves / (2 * hardware threads)) - the documented automatic block size"""
+    return max(1, len(set(tc.leaf_indices())) // (2 * hc))
+
+
+def model_text(text):
+    """the same case with the automatic block size (B < 0 = -hardware threads) replaced by its value, for the model"""
+    h = text.split(" | ")
+    f = h[0].split()
+    if int(f[4]) < 0:
+        f[4] = str(parse_case(text).B)
+        h[0] = " ".join(f)
+    return " | ".join(h)
 
 
 def oracle_structure(tc, dump):
